@@ -18,7 +18,7 @@ FUNCTIONS = ["Node._get_prefix", "Node._render_lines", "Node.format_iter", "Node
 STUBS = ["S-dict", "S-hash"]
 STUBS_INSTALL = {"symbolic": True, "fmt": False}
 ASSUMPTIONS = [
-    "node renderings are the concrete labels (repr '{node.data}' and an equivalent callable)",
+    "node renderings are the concrete labels (repr '{node.data}' and an equivalent callable); clone shards use two names selected symbolically per node; order shards build the tree in a non-document creation order",
     "the style is a symbolic selector over the 28 table styles, 'list', a custom 4-tuple and a custom 6-tuple with pairwise distinct segments; join a selector over three strings (symbolic z3 strings for the segments were tried and dropped: 12 s per path, see DESIGN.md section 9)",
     "decoding prefixes back to the shape is implied by equality with the reference renderer whenever the style's segments are distinguishable; it is not run as a separate step",
 ]
@@ -31,8 +31,19 @@ def BOUNDS(tier):
 
 
 def shards(tier):
+    from vlib.mutprops import topo_orders
+
     n = 4 if tier == "quick" else 5
-    return [{"name": "format-%s" % shape_str(sh), "shape": list(sh)} for sh in shapes_upto(n, 1)]
+    out = [{"name": "format-%s" % shape_str(sh), "kind": "all", "shape": list(sh)} for sh in shapes_upto(n, 1)]
+    # clones: labels are symbolic selectors into two names (rendering must not depend on the data)
+    for sh in shapes_upto(n, 2):
+        if max(len(children_of(sh, p)) for p in range(-1, len(sh))) <= 2:  # two names: at most two siblings
+            out.append({"name": "clones-%s" % shape_str(sh), "kind": "clones", "shape": list(sh)})
+    # trees not built in document order (registration order != pre-order)
+    for sh in shapes_upto(3 if tier == "quick" else 4, 2):
+        for order in topo_orders(sh)[1:4]:
+            out.append({"name": "order-%s-o%s" % (shape_str(sh), "".join(map(str, order))), "kind": "order", "shape": list(sh), "order": list(order)})
+    return out
 
 
 JOINS = ["\n", ", ", ""]
@@ -40,8 +51,16 @@ CUSTOM4 = ("A ", "B|", "`c-", "+dd")
 CUSTOM6 = ("A", "B|", "`c", "+d", "`e.", "+f.")
 
 
+SUBSET = [22, 27, 28, 30]  # round43, round43c, list, custom 6-tuple
+
+
 def params(desc):
-    return [("style", "sel", 0, 30), ("join", "sel", 0, len(JOINS) - 1)]
+    if desc.get("kind", "all") == "all":
+        return [("style", "sel", 0, 30), ("join", "sel", 0, len(JOINS) - 1)]
+    ps = [("style", "sel", 0, len(SUBSET) - 1)]
+    if desc["kind"] == "clones":
+        ps += [("l%d" % i, "sel", 0, 1) for i in range(len(desc["shape"]))]
+    return ps
 
 
 def is_last(shape, i):
@@ -93,11 +112,17 @@ def body(ctx, desc, x):
 
     shape = tuple(desc["shape"])
     n = len(shape)
+    kind = desc.get("kind", "all")
     labels = ["n%d" % i for i in range(n)]
-    tree, nodes = build(shape, labels, name="T")
-    join = JOINS[int(x["join"])]
+    if kind == "clones":
+        labels = [["x", "y"][x["l%d" % i]] for i in range(n)]
+    try:
+        tree, nodes = build(shape, labels, name="T", order=desc.get("order"))
+    except Exception:  # noqa: BLE001 - equal sibling names: not constructible
+        return ""
+    join = JOINS[int(x["join"])] if kind == "all" else "\n"
     ctx.mark()
-    k = int(x["style"])
+    k = int(x["style"]) if kind == "all" else SUBSET[x["style"]]
     names = list(CONNECTORS.keys())
     title_text = "My title"
     if k < len(names):
